@@ -27,6 +27,11 @@ type LoopSpec struct {
 	Invariants []Clause
 	Decreases  []Clause // lexicographic
 	NoTerm     bool     // termination explicitly not claimed
+	OrderFree  bool     // map-range loop: order independence not checked (reason recorded)
+	ExitAny    bool     // map-range loop: which exiting iteration comes first is declared irrelevant
+	OrderReason string
+	Bags       []string // slice variables compared as multisets (sorted before use)
+	OrderAssume []Clause // facts about the iterated map assumed (not proved) by the order check; each is listed as an assumption
 }
 
 type GhostStmt struct {
@@ -54,6 +59,7 @@ type Contract struct {
 	Modifies []Clause
 	ModAll   bool
 	AbstractFloats bool // float operations are uninterpreted functions (same symbols in code and spec)
+	Notes        []string // assumptions stated by the contract author, copied into the evidence
 	StringsExact bool // model the contents of concatenated strings (quantified axioms)
 	Handler  bool // deferred recover handler: recover() yields an arbitrary value
 	RecoverBy string // callee key of the deferred recover handler: runtime panics after its Defer are converted to errors
@@ -457,6 +463,11 @@ func (sp *Specs) loadSpecFile(path, pkgPath string) error {
 			cur.Like = rest
 		case "abstractfloats":
 			cur.AbstractFloats = true
+		case "note":
+			if cur == nil {
+				return fail(fmt.Errorf("note outside func"))
+			}
+			cur.Notes = append(cur.Notes, rest)
 		case "stringsexact":
 			cur.StringsExact = true
 		case "handler":
@@ -504,13 +515,39 @@ func (sp *Specs) loadSpecFile(path, pkgPath string) error {
 			if curLoop != nil {
 				curLoop.NoTerm = true
 			}
+		case "orderfree", "exitany":
+			if curLoop == nil {
+				return fail(fmt.Errorf("%s outside loop", word))
+			}
+			if word == "orderfree" {
+				curLoop.OrderFree = true
+			} else {
+				curLoop.ExitAny = true
+			}
+			curLoop.OrderReason = strings.TrimSpace(strings.TrimPrefix(rest, "--"))
+		case "orderassume":
+			if curLoop == nil {
+				return fail(fmt.Errorf("orderassume outside loop"))
+			}
+			c, err := parseClause(rest, lineNo)
+			if err != nil {
+				return fail(err)
+			}
+			curLoop.OrderAssume = append(curLoop.OrderAssume, c)
+		case "bag":
+			if curLoop == nil {
+				return fail(fmt.Errorf("bag outside loop"))
+			}
+			curLoop.Bags = append(curLoop.Bags, strings.Fields(rest)...)
 		case "loop":
 			n, err := strconv.Atoi(rest)
 			if err != nil || cur == nil {
 				return fail(fmt.Errorf("bad loop directive"))
 			}
-			curLoop = &LoopSpec{}
-			cur.Loops[n] = curLoop
+			if curLoop = cur.Loops[n]; curLoop == nil {
+				curLoop = &LoopSpec{}
+				cur.Loops[n] = curLoop
+			}
 		case "ghost":
 			// ghost name type = init
 			parts := strings.SplitN(rest, "=", 2)
